@@ -54,4 +54,15 @@ theorem facts_sorts :
        "cres.nquads by func(i, j canonicalizedQuad) int { return bytes.Compare(i.encoded, j.encoded) }",
        "nquadsList by strings.Compare", "orderedRelatedHashes by strings.Compare"] := by decide
 
+/-- Loop control: step 4.1 and step 5.2.1 `continue` to the next entry (never `break`: the model's
+    `hashPathList` skips an already labelled node and goes on with the rest of the identifier list); the
+    two prunings jump to the next permutation; there is no other `break`/`continue`/`goto`. -/
+theorem facts_loop_control :
+    CanonFacts.loopBranches =
+      ["len(a.canonicalizationState.hashToBlankNodes[hash]) > 1 => continue",
+       "_, ok := a.canonicalizationState.canonicalIssuer.GetBlankNodeStringIfKnown(n); ok => continue",
+       "len(chosenPath) > 0 && (len(path) >= len(chosenPath)) && (strings.Compare(path, chosenPath) > 0) => goto PERMUTATION_NEXT",
+       "len(chosenPath) > 0 && (len(path) >= len(chosenPath)) && (strings.Compare(path, chosenPath) > 0) => goto PERMUTATION_NEXT"] ∧
+    CanonFacts.otherBranches = 0 := by decide
+
 end RdfModel.C04
